@@ -182,6 +182,7 @@ def cells(tier):
                     for tzn in TZS:
                         for sepb, sep in ((84, None), (Q, None), (32, " ")):
                             combos.append((dn, tn, k, tzn, sepb, sep))
+        combos = combos[::4]      # every 4th combination of the full product: the tier stays near an hour on 16 cores
     # the longest documented rendering, handed over as a stream (str / bytes / stream inputs must be equivalent)
     long_tpl = DATES["YYYY-MM-DD"] + [84] + TIMES["hh:mm:ss"] + frac(9, False) + TZS["+hh:mm"]
     add("dt", "YYYY-MM-DDThh:mm:ss.9+hh:mm", long_tpl, 300 * big, via="stream")
